@@ -186,6 +186,7 @@ func c13ReplacedInput(t *rapid.T) {
 	}
 	converge("start")
 	exclusions, reloadsAfterExclusion, revisited, generation := 0, 0, false, 0
+	current, instalments := "a", 0
 	seenSinceExclusion := map[string]bool{}
 	steps := rapid.IntRange(4, 14).Draw(t, "steps")
 	for i := 0; i < steps; i++ {
@@ -214,6 +215,10 @@ func c13ReplacedInput(t *rapid.T) {
 			s.Post(fmt.Sprintf("pos(%d)+exclude", k))
 		case "reload":
 			name := rapid.SampledFrom([]string{"a", "b", "c"}).Draw(t, "input")
+			if rapid.Bool().Draw(t, "sameInputAgain") {
+				name = current // as many lines as before
+			}
+			current = name
 			action := rapid.SampledFrom([]string{"reload", "reload-sync"}).Draw(t, "how")
 			if len(excluded) > 0 {
 				reloadsAfterExclusion++
@@ -229,8 +234,18 @@ func c13ReplacedInput(t *rapid.T) {
 				loaded = append(loaded, fmt.Sprintf("%s-g%d", l, generation))
 			}
 			excluded = map[string]bool{}
-			history = append(history, fmt.Sprintf("POST %s(sed 's/$/-g%d/' %s)", action, generation, name))
-			s.Post(fmt.Sprintf("%s(sed 's/$/-g%d/' %s)", action, generation, shQuote(filepath.Join(dir, name))))
+			cmd := fmt.Sprintf("sed 's/$/-g%d/' %s", generation, shQuote(filepath.Join(dir, name)))
+			shown := fmt.Sprintf("sed 's/$/-g%d/' %s", generation, name)
+			if nl := len(inputs[name]); nl >= 4 && rapid.Bool().Draw(t, "inTwoInstalments") {
+				// the new input arrives in two instalments, the second one together with the end of input
+				k := rapid.IntRange(1, nl-1).Draw(t, "firstInstalment")
+				f := shQuote(filepath.Join(dir, name))
+				cmd = fmt.Sprintf("sed -n '1,%dp' %s | sed 's/$/-g%d/'; sleep 0.%d; sed -n '%d,$p' %s | sed 's/$/-g%d/'", k, f, generation, rapid.IntRange(1, 4).Draw(t, "pauseTenths"), k+1, f, generation)
+				shown += fmt.Sprintf(" (first %d lines, pause, the rest)", k)
+				instalments++
+			}
+			history = append(history, fmt.Sprintf("POST %s(%s)", action, shown))
+			s.Post(fmt.Sprintf("%s(%s)", action, cmd))
 			if rapid.Bool().Draw(t, "settleAfterReload") {
 				converge("after " + action)
 			}
@@ -240,8 +255,8 @@ func c13ReplacedInput(t *rapid.T) {
 		}
 	}
 	converge("end of history")
-	nt := reloadsAfterExclusion > 0 && revisited
-	vstat.Case("C13/proc-replaced-input", strings.Join(history, "|"), nt, fmt.Sprintf("exclusions=%d", imin(exclusions, 3)), fmt.Sprintf("reloads_after_exclusion=%d", imin(reloadsAfterExclusion, 3)))
+	nt := reloadsAfterExclusion > 0 && revisited || instalments > 0
+	vstat.Case("C13/proc-replaced-input", strings.Join(history, "|"), nt, fmt.Sprintf("reloads_in_instalments=%d", imin(instalments, 3)), fmt.Sprintf("exclusions=%d", imin(exclusions, 3)), fmt.Sprintf("reloads_after_exclusion=%d", imin(reloadsAfterExclusion, 3)))
 	if nt && vstat.WantSample("C13/proc-replaced-input") {
 		vstat.Sample("C13/proc-replaced-input", history)
 	}
